@@ -27,11 +27,19 @@ def grids(pupil, tier):
 def make(cfg, seed, opd_scale=1.0, wl=None, tilt=None):
     import lentil
     shape = tuple(cfg['pupil'])
-    amp, opd, mask = op.pupil_arrays(shape, cfg.get('support', 'full'), seed, tag=shape[0] * 10 + shape[1])
+    support = cfg.get('support', 'full')
+    amp, opd, mask = op.pupil_arrays(shape, 'full' if support == 'seg2' else support, seed, tag=shape[0] * 10 + shape[1])
     wl0 = cfg['wl']
     use_wl = wl0 if wl is None else wl
     dx = tuple(cfg['dx']) if np.ndim(cfg['dx']) else cfg['dx']
-    pupil = lentil.Pupil(amplitude=amp.copy(), opd=(opd * opd_scale).copy(), pixelscale=dx, focal_length=cfg['z'])
+    kwm = {}
+    if support == 'seg2':
+        # two segments -> the wavefront holds more than one Field
+        m3 = np.zeros((2,) + shape)
+        m3[0][:, :shape[1] // 2] = 1
+        m3[1][:, shape[1] // 2:] = 1
+        kwm['mask'] = m3
+    pupil = lentil.Pupil(amplitude=amp.copy(), opd=(opd * opd_scale).copy(), pixelscale=dx, focal_length=cfg['z'], **kwm)
     if tilt == 'fit':
         pupil = pupil.fit_tilt()
     w = lentil.Wavefront(use_wl, tilt=[1e-6, -2e-6] if tilt == 'wavefront' else None) * pupil
@@ -222,20 +230,30 @@ SEQ_N = [12, 9, 13]
 
 
 def chk_hist(case, acc, seed):
-    """E2: one shared scratch buffer reused across a sequence of propagations."""
+    """E2: one shared scratch buffer reused across a sequence of propagations; earlier results are kept and looked at again
+    after the later calls (a returned wavefront must not live in the caller's scratch buffer)"""
     import lentil
     seq = case['seq']
     scratch = np.full((15, 14), 9 - 4j, dtype=complex)
+    held = []
     for step, N in enumerate(seq):
         cfg = cfg_for((5, 4) if N != 9 else (6, 6), N, 1 if N % 2 else 2, 0)
+        cfg['support'] = 'seg2' if step % 2 else 'full'
         w, fin = make(cfg, seed)
-        a = lentil.propagate_fft(w, cfg['du'], oversample=cfg['os'], scratch=scratch).field
+        out = lentil.propagate_fft(w, cfg['du'], oversample=cfg['os'], scratch=scratch)
+        a = np.array(out.field, copy=True)
         w2, _ = make(cfg, seed)
         b = lentil.propagate_fft(w2, cfg['du'], oversample=cfg['os']).field
         if not np.allclose(a, b, rtol=0, atol=1e-12):
             acc.violation('fft:scratch-history', dict(case, step=step),
                           f'step {step} (grid {N}) with the shared scratch differs from the scratch-free result by {rm.maxerr(a, b):.3e}')
+        held.append((out, a))
         acc.transitions += 1
+    scratch[...] = -1 + 5j            # the caller re-uses its buffer for something else
+    for step, (out, a) in enumerate(held):
+        if not np.array_equal(out.field, a):
+            acc.violation('fft:result-aliases-scratch', dict(case, step=step),
+                          f'the wavefront returned by step {step} changed after the scratch buffer was used again')
     acc.states += 1
     acc.cls('history')
     acc.case(case, outcome='hist')
@@ -252,7 +270,7 @@ def t_cfg(arg, acc):
                 for aniso in (False, True, 'wide'):
                     if aniso and (eps != 0 or N > max(pupil) + 2):
                         continue
-                    for support in (('full', 'offcentre', 'block') if eps == 0 and not aniso else ('full',)):
+                    for support in (('full', 'offcentre', 'block', 'seg2') if eps == 0 and not aniso else ('full',)):
                         cfg = dict(cfg_for(pupil, N, os_, eps, aniso), support=support)
                         acc.states += 1
                         for shape in accepted_shapes(cfg['N'], os_, tier):
